@@ -19,6 +19,7 @@ import (
 // be exactly the complete records (a partial record is never invented).
 
 type vpStages struct {
+	waitErr  error // what the pipeline reports when it is waited for (a git process that failed)
 	funcs    map[string]pipe.StageFunc
 	linewise map[string]pipe.LinewiseStageFunc
 }
@@ -36,7 +37,7 @@ func vpCaptureStages() *vpStages {
 	vp_Stub("github.com/github/go-pipe/pipe.CommandStage", func(name string, cmd *exec.Cmd) pipe.Stage { return nil })
 	vp_Stub("(*github.com/github/go-pipe/pipe.Pipeline).Add", func(p *pipe.Pipeline, stages ...pipe.Stage) {})
 	vp_Stub("(*github.com/github/go-pipe/pipe.Pipeline).Start", func(p *pipe.Pipeline, ctx context.Context) error { return nil })
-	vp_Stub("(*github.com/github/go-pipe/pipe.Pipeline).Wait", func(p *pipe.Pipeline) error { return nil })
+	vp_Stub("(*github.com/github/go-pipe/pipe.Pipeline).Wait", func(p *pipe.Pipeline) error { return st.waitErr })
 	vp_Stub("(*github.com/github/git-sizer/git.Repository).GitCommand", func(r *Repository, args ...string) *exec.Cmd { return &exec.Cmd{} })
 	vp_ChanSlack(16)
 	return st
@@ -70,11 +71,15 @@ func VPH_pipelineCheck() {
 		return
 	}
 	vp_Assert(serr == nil, "a truncated listing is not a parse error of its complete lines")
+	gitFailed := vp_Choice("git-failed", 2) == 1
+	if gitFailed {
+		st.waitErr = io.ErrUnexpectedEOF
+	}
 	var got []BatchHeader
 	for {
 		h, ok, nerr := iter.Next()
 		if !ok {
-			vp_Assert(nerr == nil, "end of stream")
+			vp_Assert((nerr != nil) == gitFailed, "the end of the stream carries the pipeline's verdict: a failed git process is an error")
 			break
 		}
 		got = append(got, h)
